@@ -18,3 +18,5 @@ for v in A B; do
   fi
 done
 git -C /repo status --short | head -3
+# evidence files must come from the unchanged tree: re-run the check there
+python3 /verif/check.py $id 2>&1 | grep -E "^(FAIL|OK|VIOLATION)" | cut -c1-120
